@@ -164,6 +164,30 @@ def F11():
     return r and len(t1.children) == 0
 
 
+def F11b():
+    """C15 (known): `list << task` / `list >> task` is applied receiver by receiver; a rejection half way keeps the earlier links"""
+    w = WBS()
+    c, q, p = Task(1), Task(2), Task(3)
+    w // [c, q]
+    q // p
+    r = rejects(lambda: w.roots << p)          # q is the parent of p: rejected for q, after c already got p
+    return r and len(c.predecessors) == 0 and len(p.successors) == 0
+
+
+def F11c():
+    """C15 (known): bulk attribute assignment on a task list is applied task by task; a rejection half way keeps the earlier changes"""
+    w = WBS()
+    c, q, p = Task(1), Task(2), Task(3)
+    w // [c, q]
+    q // p
+    lst = w.roots
+
+    def bulk():
+        lst.predecessors = [p]
+    r = rejects(bulk)
+    return r and len(c.predecessors) == 0
+
+
 # ---------------------------------------------------------------- C14
 def F13():
     """C14: a dependency cycle closed through the hierarchy must give RuntimeError (not RecursionError)"""
@@ -446,7 +470,7 @@ def F34c():
     return run(datetime(2025, 1, 6)) == run(datetime(2026, 1, 5))
 
 
-ALL = [F1, F2, F3, F4, F35, F5, F6, F7, F8, F9, F10, F11, F13, F14, F14b, F15, F16, F17, F19, F20, F21, F22, F23, F24,
+ALL = [F1, F2, F3, F4, F35, F5, F6, F7, F8, F9, F10, F11, F11b, F11c, F13, F14, F14b, F15, F16, F17, F19, F20, F21, F22, F23, F24,
        F25, F26, F27, F28, F30, F33, F34, F34b, F34c]
 
 if __name__ == '__main__':
